@@ -369,6 +369,15 @@ class L2Gen:
             sts.insert(1, rd)
             sts.append({"object": "C", "fields": [["f1", ["ref", "n1.f1"]]]})
             self.features.add("just_once-forward-ref")
+        elif x < 0.26 and len(plan) >= 1:
+            # the first statement of an iteration names a table whose row is created LATER in the iteration (a top-level
+            # variable holding `T.id`): in every iteration it must reserve a fresh id, never see the previous iteration's row
+            target = plan[-1][0]
+            sts.insert(0, {"var": "v1", "value": ["tmpl", [["expr", ["attr", ["name", target], "id"]]]]})
+            sts.insert(1, {"object": "C", "fields": [["f1", ["tmpl", [["expr", ["name", "v1"]]]]]]})
+            if "v1" not in self.vars:
+                self.vars.append("v1")
+            self.features.add("var-names-later-table")
         opts = [["o1", r.choice([1, 2, 3])]] + ([["count", r.choice([5, 9])]] if count_option else [])
         return {"version": r.choice([2, 3]), "options": opts, "statements": sts}
 
